@@ -1,5 +1,6 @@
 """Reference program (spec/ref) loader and code-vs-reference comparison of normal forms."""
 import os
+from fractions import Fraction
 
 from .alg import Rat
 from .model import Program, Undecided
@@ -118,3 +119,87 @@ def zero_empty_sums(rows, registries, positive=("N", "w"), int_atoms=("N", "w"))
                 o = o.subst(sub)
         out.append((conds, o))
     return out
+
+
+WINDOW_TOTALS = {"wpos": "npos", "wneg": "nneg"}
+
+
+def expand_small_windows(rows, registries, domain=(), positive=("N", "w"), int_atoms=("N", "w")):
+    """Make window sums canonical where the window family is tiny.  A row whose outcome mentions WS<k> (sum over i in [lo, hi) of a per-window
+    term) is split into: family empty (hi <= lo): WS<k> = 0; exactly one window (hi == lo + 1) that starts at 0 - the window then IS the whole
+    sequence, its counts are the totals and the sum is the single term, evaluated piece by piece; two or more windows: the atom is kept.
+    Rows that become infeasible are dropped.  Needed whenever code or specification branches on the length (a fast path for short sequences)."""
+    from .dt import feasible_with
+    positive, int_atoms = set(positive), set(int_atoms)
+    out = []
+    work = [(list(c), o) for c, o in rows]
+    guard = 0
+    while work:
+        guard += 1
+        if guard > 400:
+            raise Undecided("too many cases while expanding small window families")
+        conds, o = work.pop()
+        if not isinstance(o, Rat):
+            out.append((conds, o))
+            continue
+        ws = sorted(a for a in o.atoms() if a.startswith("WS") and a[2:].isdigit())
+        target = None
+        for a in ws:
+            rec = registries[int(a[2:])]
+            if rec.get("kind") != "wsum":
+                continue
+            n = rec["hi"] - rec["lo"]
+            # already known to have >= 2 windows under this row?
+            if feasible_with(conds + [("cmp", n, "<=", Rat.const(1))], list(domain), positive, int_atoms=int_atoms) is None:
+                continue
+            target = (a, rec, n)
+            break
+        if target is None:
+            out.append((conds, o))
+            continue
+        a, rec, n = target
+        # case: empty
+        c0 = conds + [("cmp", n, "<=", Rat.const(0))]
+        if feasible_with(c0, list(domain), positive, int_atoms=int_atoms) is not None:
+            work.append((c0, o.subst({a: Rat.const(0)})))
+        # case: many
+        c2 = conds + [("cmp", n, ">=", Rat.const(2))]
+        if feasible_with(c2, list(domain), positive, int_atoms=int_atoms) is not None:
+            work.append((c2, o.subst({a: Rat.atom(a + "!")})))        # marked: do not expand again
+        # case: exactly one window
+        c1 = conds + [("cmp", n, "==", Rat.const(1))]
+        if feasible_with(c1, list(domain), positive, int_atoms=int_atoms) is not None:
+            win = rec.get("window")
+            lin = (n - Rat.const(1)).n.linear() if (n - Rat.const(1)).d.is_const() else None
+            if not (win and rec["lo"].equals(Rat.const(0)) and win[1].equals(Rat.atom("@i")) and lin is not None and lin[0].get("N") in (1, Fraction(1))):
+                raise Undecided("single-window case of %s: window is not [i, i+w) from 0 with N in the bound" % a)
+            co, c = lin
+            # n - 1 == 0  ->  N = -(rest)
+            nval = Rat.const(-c)
+            for k, v in co.items():
+                if k != "N":
+                    nval = nval - Rat.const(v) * Rat.atom(k)
+            sub = {"N": nval, "@i": Rat.const(0)}
+            for wa, tot in WINDOW_TOTALS.items():
+                sub[wa] = Rat.atom(tot)
+            for pc, term in rec["pieces"]:
+                if any(x.startswith("wcnt[") or x.startswith("WS") for x in term.atoms()):
+                    raise Undecided("single-window case of %s: term over per-letter window counts" % a)
+                pc2 = [_subst_cond(x, sub) for x in pc]
+                t2 = subst_deep(term, sub)
+                cc = [_subst_cond(x, {"N": nval}) for x in c1] + pc2
+                cc = [x for x in cc if x is not True]
+                if any(x is False for x in cc):
+                    continue
+                if feasible_with(cc, list(domain), positive - {"N"}, int_atoms=int_atoms) is None:
+                    continue
+                work.append((c1 + pc2, subst_deep(o, {"N": nval}).subst({a: t2}) if a in subst_deep(o, {"N": nval}).atoms() else subst_deep(o, {"N": nval})))
+    # unmark
+    res = []
+    for conds, o in out:
+        if isinstance(o, Rat):
+            marks = {x: Rat.atom(x[:-1]) for x in o.atoms() if x.startswith("WS") and x.endswith("!")}
+            if marks:
+                o = o.subst(marks)
+        res.append((conds, o))
+    return res
